@@ -67,19 +67,74 @@ def apply(chk, rid, floor=5):
     if t is None:
         from .core import AnalysisError
         raise AnalysisError("sa/unused_params.json missing")
-    scope = set(chk.analysed_functions)
+    scope = closure(chk)
+    direct = set(chk.analysed_functions)
+    from . import renames as _rn
+    ref = _rn.table() or {}
     n = 0
     for m in chk.repo.modules.values():
         for q, f in m.functions():
             key = f"{m.name}:{q}"
-            if not any(key == s_ or key.startswith(s_ + ".") for s_ in scope):
+            near = any(key == s_ or key.startswith(s_ + ".") for s_ in direct)
+            if not near and key not in scope:
                 continue
             n += 1
             bad = [(i, p) for i, p in unread_params(f) if (m.name, q, i) not in t]
+            if not near:
+                # functions reached only through calls: report a parameter only when the reference tree has the same function with
+                # the same parameter (which it read: the table lists its unread ones) - an option that used to matter and is now ignored
+                rp = (ref.get(m.name, {}).get(q) or {}).get("params") or []
+                bad = [(i, p) for i, p in bad if p in rp]
             short = m.name.replace("irispie.", "")
             if bad:
                 i, p = bad[0]
                 chk.bad(rid, f"{short}.{q}[{p}]", f"parameter {p!r} (position {i}) is accepted but never read: whatever the caller passes, the function "
-                        "behaves as for one fixed value", m.loc(f))
-            else:
+                        "behaves as for one fixed value" + ("" if near else f" (reached from this property's functions through {scope.get(key)})"), m.loc(f))
+                if not near:
+                    chk.saw(m, q)
+            elif near:
                 chk.ok(rid, f"{short}.{q}", "every named parameter is read (or excused by the table)", m.loc(f))
+    chk.ok(rid, "call closure[depth 4]", f"{len(scope)} functions reachable by name from the {len(direct)} functions this property's rules read were examined "
+           "for parameters that the reference tree read and this tree ignores", "")
+
+
+COMMON = {"get", "copy", "update", "items", "keys", "values", "append", "extend", "pop", "add", "join", "format", "split", "strip", "replace", "index",
+          "count", "sort", "remove", "insert", "clear", "setdefault", "reshape", "astype", "any", "all", "sum", "min", "max", "mean", "__init__"}
+
+
+def closure(chk, depth=4):
+    """{module:qual -> via} of the functions reachable from the property's functions through calls, resolved by bare name: a call
+    f(...) or x.f(...) reaches every repository function or method named f unless the name is shared by more than 4 definitions or is
+    a container/array method name (over-approximate on purpose: a wider scope only means more functions are examined)"""
+    from . import gens
+    ix = gens._INDEX_CACHE.get(id(chk.repo)) or gens.GenIndex(chk.repo)
+    gens._INDEX_CACHE[id(chk.repo)] = ix
+    direct = set(chk.analysed_functions)
+    seen = {}
+    frontier = []
+    for (m, q) in ix.funcs:
+        key = f"{m}:{q}"
+        if any(key == s_ or key.startswith(s_ + ".") for s_ in direct):
+            seen[key] = "direct"
+            frontier.append((m, q))
+    for _ in range(depth):
+        nxt = []
+        for (m, q) in frontier:
+            f = ix.funcs[(m, q)]
+            for c in ast.walk(f):
+                if not isinstance(c, ast.Call):
+                    continue
+                name = c.func.attr if isinstance(c.func, ast.Attribute) else c.func.id if isinstance(c.func, ast.Name) else None
+                if not name or name in COMMON:
+                    continue
+                tgt = ix.resolve(m, q, c)
+                cands = [tgt] if tgt else ix.by_name.get(name, [])
+                if len(cands) > 4:
+                    continue
+                for t_ in cands:
+                    k = f"{t_[0]}:{t_[1]}"
+                    if k not in seen:
+                        seen[k] = f"{m.replace('irispie.', '')}.{q}"
+                        nxt.append(t_)
+        frontier = nxt
+    return seen
